@@ -153,7 +153,8 @@ def run(chk):
         for even in (True, False):
             a, b = summary.get((ARR, pname, even)), summary.get((RS, pname, even))
             chk.ob("R-RS-SIB", "interp_array_to_approx_dt~resample_to_approx_dt(%s,even=%s)" % (pname, even),
-                   "both follow the same factor rule", a is not None and a == b, derived="%s vs %s" % (a, b))
+                   "both follow the same factor rule", a is not None and a == b, derived="%s vs %s" % (a, b),
+                   inconclusive=(a is None or b is None))          # a rule that could not be derived is not a disagreement
     # object-level forwarder pairs values with dt
     def setup_t(I):
         I.tag_returns = {ARR}
